@@ -483,4 +483,117 @@ def signer_answers(ctx):
     return st
 
 
-SUBS = [("combine_join", combine_join), ("refusals", refusals), ("role_sequences", role_sequences), ("signer_answers", signer_answers)]
+# ------------------------------------------------------------------------------------------------ (e) the signer contract
+def signer_contract(ctx):
+    """assert_psbt_signer accepts the library's own signer and refuses every signer that departs from the contract in exactly
+    one way (a wrapper around the honest one with one answer altered): the alphabet of single departures is enumerated."""
+    import copy
+
+    from btclib.bip32 import rootxprv_from_seed
+    from btclib.psbt_signer import SignerCapabilities, SoftwareSigner
+    from btclib.psbt_signer_contract import assert_psbt_signer
+    from btclib.tx import TxOut
+
+    st = Stats()
+    errs = lib_errors()
+    root = rootxprv_from_seed(b"\x05" * 32)
+
+    class Wrapper:
+        """The honest signer with one answer altered."""
+
+        def __init__(self, departure):
+            self._s = SoftwareSigner(root)
+            self.departure = departure
+            self._calls = collections.Counter()
+
+        @property
+        def master_fingerprint(self):
+            self._calls["fp"] += 1
+            fp = self._s.master_fingerprint
+            if self.departure == "fingerprint-5-bytes":
+                return fp + b"\x00"
+            if self.departure == "fingerprint-3-bytes":
+                return fp[:3]
+            if self.departure == "fingerprint-changes" and self._calls["fp"] > 1:
+                return bytes([fp[0] ^ 1]) + fp[1:]
+            return fp
+
+        def xpub(self, der_path):
+            self._calls["xpub"] += 1
+            if self.departure == "xpub-is-private":
+                from btclib.bip32 import derive
+                return derive(root, der_path)
+            if self.departure == "xpub-not-a-key":
+                return "xpub-nonsense"
+            if self.departure == "xpub-changes" and self._calls["xpub"] > 1:
+                return self._s.xpub("m/84h/0h/1h")
+            return self._s.xpub(der_path)
+
+        def sign_psbt(self, psbt):
+            out = self._s.sign_psbt(psbt)
+            d = self.departure
+            if d == "edits-an-amount":
+                out = copy.deepcopy(out)
+                if out.inputs[0].witness_utxo is not None:
+                    out.inputs[0].witness_utxo = TxOut(out.inputs[0].witness_utxo.value + 1, out.inputs[0].witness_utxo.script_pub_key)
+            elif d == "signs-for-another-master":
+                out = copy.deepcopy(out)
+                for pin in out.inputs:
+                    for key in pin.hd_key_paths:
+                        if key not in pin.partial_sigs:
+                            pin.partial_sigs[key] = bytes.fromhex("3006020101020101") + b"\x01"
+            elif d == "adds-no-signature":
+                out = copy.deepcopy(psbt)
+            elif d == "raises-on-foreign-psbt":
+                if not any(k for pin in out.inputs for k in pin.partial_sigs) and not any(pin.taproot_key_spend_signature for pin in out.inputs):
+                    from btclib.exceptions import BTClibValueError
+                    raise BTClibValueError("nothing of mine here")
+            elif d == "adds-an-unknown-field":
+                out = copy.deepcopy(out)
+                out.inputs[0].unknown[b"\xfc\x01x"] = b"y"
+            return out
+
+        @property
+        def capabilities(self):
+            self._calls["cap"] += 1
+            if self.departure == "capabilities-change" and self._calls["cap"] > 1:
+                return SignerCapabilities(taproot=False, musig2=True)
+            return self._s.capabilities
+
+        def close(self):
+            self._calls["close"] += 1
+            if self.departure == "close-not-idempotent" and self._calls["close"] > 1:
+                from btclib.exceptions import BTClibRuntimeError
+                raise BTClibRuntimeError("already closed")
+            self._s.close()
+
+    departures = [None, "fingerprint-5-bytes", "fingerprint-3-bytes", "fingerprint-changes", "xpub-is-private", "xpub-not-a-key", "xpub-changes", "edits-an-amount",
+                  "signs-for-another-master", "adds-no-signature", "raises-on-foreign-psbt", "adds-an-unknown-field", "capabilities-change", "close-not-idempotent"]
+    for serving in (True, False):
+        with backend(serving):
+            for mix in (("wpkh",), ("tr-key", "pkh"), ("wsh-multi",)):
+                for dep in departures:
+                    st.evals += 1
+                    st.states += 1
+                    st.transitions += 1
+                    if dep is not None:
+                        st.nontrivial += 1
+                    signable, _ = PC.build(mix, 1, seq=5, lock=0)
+                    case = {"departure": dep, "mix": mix, "bindings": serving}
+                    try:
+                        assert_psbt_signer(Wrapper(dep), der_path="m/84h/0h/0h", signable=signable)
+                        accepted = True
+                    except errs:
+                        accepted = False
+                    except Exception as e:  # noqa: BLE001
+                        st.violation("C11/contract/foreign-exception", case, repr(e)[:100], "accepted or a library refusal")
+                        continue
+                    if dep is None and not accepted:
+                        st.violation("C11/contract/honest-signer-refused", case, "refused", "accepted")
+                    if dep is not None and accepted:
+                        st.violation("C11/contract/departure-accepted/" + dep, case, "accepted", "refused")
+                    st.outcomes[(dep, accepted)] += 1
+    return st
+
+
+SUBS = [("combine_join", combine_join), ("refusals", refusals), ("role_sequences", role_sequences), ("signer_answers", signer_answers), ("signer_contract", signer_contract)]
